@@ -434,6 +434,13 @@ int __printf(void (*printchar_handler)(void *d, int c),
         {
             width = va_arg(args, int);
             ++format;
+            if (width < 0)
+            {
+                /* a negative field width is a '-' flag followed by a
+                 * positive width */
+                ops |= OPS_FLAG_LEFT_ALIGN;
+                width = -width;
+            }
         }
         else
         {
